@@ -125,3 +125,35 @@ Print Assumptions C13_no_call_lost_at_rest.
 Theorem C13_refuted_identical_calls_lose_one : ltac:(let t := type of FileLive.progress_needs_distinct_calls in exact t).
 Proof. exact FileLive.progress_needs_distinct_calls. Qed.
 Print Assumptions C13_refuted_identical_calls_lose_one.
+
+(* ---- and the rest state is reached (Proofs/FileMeasure.v, 1285 lines): in the same kill-free runs every
+   step of the client, of a call process and of the loop thread strictly decreases a natural-number
+   measure - except a step of the loop thread inside a fruitless polling pass (Model/FileMeasureSpec.v:
+   empty queue and only entries whose future is not done and whose result file is not complete left in
+   this pass, or polling producers that are all still running); and a fruitlessly polling loop thread is
+   never alone: some process or the client can move, or every call taken from the queue is done.
+   With a scheduler that does not starve an enabled thread for ever, every taken call completes. ---- *)
+From EL Require Model.FileMeasureSpec Proofs.FileMeasure.
+Theorem C13_file_mode_progress_measure :
+  forall c n prog fs0 s t s' l,
+    FileSpec.nocancel prog = true -> ExecInv.wf_prog n prog -> FileLiveSpec.no_late_submit prog = true ->
+    (forall i j, FileExec.fcanon c i = FileExec.fcanon c j -> i = j) ->
+    FileSafe.fs_wf fs0 -> FileLiveSpec.fs_outs_complete fs0 = true ->
+    FileLive.freach_nk c (FileExec.finit n prog fs0) s ->
+    FileExec.fstep c s t = Some (s', l) ->
+    (t = Exec.TD -> FileMeasureSpec.f_polling s = false) ->
+    FileMeasure.fmu c n prog s' < FileMeasure.fmu c n prog s.
+Proof. exact FileMeasure.file_step_decreases. Qed.
+Print Assumptions C13_file_mode_progress_measure.
+
+Theorem C13_polling_loop_is_not_alone :
+  forall c n prog fs0 s,
+    FileSpec.nocancel prog = true -> ExecInv.wf_prog n prog -> FileLiveSpec.no_late_submit prog = true ->
+    (forall i j, FileExec.fcanon c i = FileExec.fcanon c j -> i = j) ->
+    FileSafe.fs_wf fs0 -> FileLiveSpec.fs_outs_complete fs0 = true ->
+    FileLive.freach_nk c (FileExec.finit n prog fs0) s ->
+    FileMeasureSpec.f_polling s = true ->
+    (exists t, t <> Exec.TD /\ In t (FileExec.fenabled c s))
+    \/ (forall i, In i (ExecInv.submits prog) -> FileLiveSpec.taken s i = true -> Exec.fdone (Exec.getf (FileExec.fbase s) i) = true).
+Proof. exact FileMeasure.file_polling_not_alone. Qed.
+Print Assumptions C13_polling_loop_is_not_alone.
